@@ -70,20 +70,24 @@ Definition sz_elem rec (f : field) (v : sval) : res Z :=
   | t => do w <- as_word v; sz_scalar t w
   end.
 
+(* the switch of repeated_field_get_packed_size: total size of the elements *)
+Definition sz_rep_payload rec (f : field) (count : Z) (arr : option (list sval)) : res Z :=
+  match f_type f with
+  | TSfixed32 | TFixed32 | TFloat => Ok (4 * count)
+  | TSfixed64 | TFixed64 | TDouble => Ok (8 * count)
+  | TBool => Ok count
+  | _ => match arr with
+         | None => Err ENull
+         | Some l => sumM_n (sz_elem rec f) l (Z.to_nat count)
+         end
+  end.
+
 Definition sz_repeated rec (f : field) (count : Z) (arr : option (list sval)) : res Z :=
   if count =? 0 then Ok 0
   else
     let header_size := get_tag_size (f_id f) in
     let header_size := if f_packed f then header_size else header_size * count in
-    do rv <- match f_type f with
-             | TSfixed32 | TFixed32 | TFloat => Ok (4 * count)
-             | TSfixed64 | TFixed64 | TDouble => Ok (8 * count)
-             | TBool => Ok count
-             | _ => match arr with
-                    | None => Err ENull
-                    | Some l => sumM_n (sz_elem rec f) l (Z.to_nat count)
-                    end
-             end;
+    do rv <- sz_rep_payload rec f count arr;
     let header_size := if f_packed f then header_size + uint32_size (u32 rv) else header_size in
     Ok (header_size + rv).
 
